@@ -174,7 +174,7 @@ let starts l p = String.length l >= String.length p && String.sub l 0 (String.le
 
 let code_label c = match c with
   | 0 -> "ok" | 1 -> "number-precision" | 2 -> "nul-truncation" | 3 -> "structure"
-  | 10 -> "failure-not-clean" | 11 -> "success-incomplete" | 12 -> "globals-or-others-changed"
+  | 13 -> "valid-create-refused" | 10 -> "failure-not-clean" | 11 -> "success-incomplete" | 12 -> "globals-or-others-changed"
   | 20 -> "failed-delete-changed-state" | 21 -> "delete-left-remains" | 22 -> "non-runtime-deleted" | 23 -> "delete-touched-others"
   | _ -> "unknown"
 
@@ -255,6 +255,8 @@ let oracle_c17_case script trace =
                          cb_nfiles_pre = n_of_int !prev_nfiles; cb_nfiles_post = n_of_int nfiles;
                          cb_globals_same = gsame; cb_others_same = osame; cb_rest_same = nondep_same && not dep_changed } in
                fail li op (int_of_n (cw_orc_create (ty = "Service") b));
+               (* a request the script marks as valid (fresh or freed name, valid attributes) must be created *)
+               if str a "must" "" = "ok" && res <> "ok" then fail li op 13;
                if res = "ok" && has a "attrs" then begin
                  let sup0 = cw_dcopy (dlist_of (cw_decode (str a "attrs" "o;"))) DNil in
                  (* the parts of a composed name are authoritative: a supplied name-part attribute reads back as the part *)
